@@ -755,3 +755,152 @@ impl snow::resolvers::CryptoResolver for StubResolver {
         }
     }
 }
+
+// ---------------------------------------------------------------------------- C20: tagged resolvers
+
+/// Objects that only carry the identity of the resolver that produced them (through `name()` / RNG output).
+pub struct TCipher<const T: u8>;
+impl<const T: u8> Cipher for TCipher<T> {
+    fn name(&self) -> &'static str {
+        if T == 0 {
+            "A"
+        } else {
+            "B"
+        }
+    }
+    fn set(&mut self, _: &[u8; 32]) {}
+    fn encrypt(&self, _: u64, _: &[u8], pt: &[u8], _: &mut [u8]) -> usize {
+        pt.len() + 16
+    }
+    fn decrypt(&self, _: u64, _: &[u8], ct: &[u8], _: &mut [u8]) -> Result<usize, Error> {
+        Ok(ct.len() - 16)
+    }
+}
+pub struct THash<const T: u8>;
+impl<const T: u8> Hash for THash<T> {
+    fn name(&self) -> &'static str {
+        if T == 0 {
+            "A"
+        } else {
+            "B"
+        }
+    }
+    fn block_len(&self) -> usize {
+        64
+    }
+    fn hash_len(&self) -> usize {
+        32
+    }
+    fn reset(&mut self) {}
+    fn input(&mut self, _: &[u8]) {}
+    fn result(&mut self, _: &mut [u8]) {}
+}
+pub struct TDh<const T: u8>;
+impl<const T: u8> Dh for TDh<T> {
+    fn name(&self) -> &'static str {
+        if T == 0 {
+            "A"
+        } else {
+            "B"
+        }
+    }
+    fn pub_len(&self) -> usize {
+        4
+    }
+    fn priv_len(&self) -> usize {
+        4
+    }
+    fn set(&mut self, _: &[u8]) {}
+    fn generate(&mut self, _: &mut dyn Random) {}
+    fn pubkey(&self) -> &[u8] {
+        &[0u8; 4]
+    }
+    fn privkey(&self) -> &[u8] {
+        &[0u8; 4]
+    }
+    fn dh(&self, _: &[u8], _: &mut [u8]) -> Result<(), Error> {
+        Ok(())
+    }
+}
+pub struct TRng<const T: u8>;
+impl<const T: u8> RngCore for TRng<T> {
+    fn next_u32(&mut self) -> u32 {
+        T as u32
+    }
+    fn next_u64(&mut self) -> u64 {
+        T as u64
+    }
+    fn fill_bytes(&mut self, dest: &mut [u8]) {
+        let mut i = 0;
+        while i < dest.len() {
+            dest[i] = T;
+            i += 1;
+        }
+    }
+    fn try_fill_bytes(&mut self, dest: &mut [u8]) -> Result<(), rand_core::Error> {
+        self.fill_bytes(dest);
+        Ok(())
+    }
+}
+impl<const T: u8> CryptoRng for TRng<T> {}
+impl<const T: u8> Random for TRng<T> {}
+
+/// Resolver whose availability is given per (primitive kind, choice): bit i of each mask = choice number i.
+pub struct TagResolver<const T: u8> {
+    pub rng: bool,
+    pub dh: u8,
+    pub cipher: u8,
+    pub hash: u8,
+}
+
+pub fn dh_idx(c: &snow::params::DHChoice) -> u8 {
+    match c {
+        snow::params::DHChoice::Curve25519 => 0,
+        _ => 1,
+    }
+}
+pub fn cipher_idx(c: &snow::params::CipherChoice) -> u8 {
+    match c {
+        snow::params::CipherChoice::ChaChaPoly => 0,
+        _ => 1,
+    }
+}
+pub fn hash_idx(c: &snow::params::HashChoice) -> u8 {
+    match c {
+        snow::params::HashChoice::SHA256 => 0,
+        snow::params::HashChoice::SHA512 => 1,
+        snow::params::HashChoice::Blake2s => 2,
+        snow::params::HashChoice::Blake2b => 3,
+    }
+}
+
+impl<const T: u8> snow::resolvers::CryptoResolver for TagResolver<T> {
+    fn resolve_rng(&self) -> Option<Box<dyn Random>> {
+        if self.rng {
+            Some(Box::new(TRng::<T>))
+        } else {
+            None
+        }
+    }
+    fn resolve_dh(&self, c: &snow::params::DHChoice) -> Option<Box<dyn Dh>> {
+        if self.dh & (1 << dh_idx(c)) != 0 {
+            Some(Box::new(TDh::<T>))
+        } else {
+            None
+        }
+    }
+    fn resolve_hash(&self, c: &snow::params::HashChoice) -> Option<Box<dyn Hash>> {
+        if self.hash & (1 << hash_idx(c)) != 0 {
+            Some(Box::new(THash::<T>))
+        } else {
+            None
+        }
+    }
+    fn resolve_cipher(&self, c: &snow::params::CipherChoice) -> Option<Box<dyn Cipher>> {
+        if self.cipher & (1 << cipher_idx(c)) != 0 {
+            Some(Box::new(TCipher::<T>))
+        } else {
+            None
+        }
+    }
+}
